@@ -161,7 +161,7 @@ CLAIMED = {
          'a copy never changes the original and vice versa; get_transaction_digest (modelled with its copy-and-mutate steps) leaves every '
          'pre-existing object unchanged and computes exactly the pure digest of C03. Pure model: the three digests depend only on the '
          'transaction skeleton, hence any permutation of sign-and-attach operations on distinct slots gives the same final transaction (any number '
-         'of inputs). The heap model is tied to the code after EVERY operation of random object histories (serialisations + sharing partition by '
+         'of inputs); the same skeleton-only dependence is proved for the three digest functions as RE-TRANSLATED from the working tree on every run (C13Gen.gen_digests_depend_on_skeleton, via the tier-T equalities of C03/C04/C05). The heap model is tied to the code after EVERY operation of random object histories (serialisations + sharing partition by '
          'id()); order independence additionally by all permutations on real signing.',
          NOTE_COMMON + 'Python object identity modelled by heap indices; signers deterministic (observed).',
          'Lean 4 proof (heap model + pure model) + differential correspondence on operation histories', '6/C13'),
